@@ -49,6 +49,8 @@
                   C12_no_panic_after_history: the same as "one more call after any history";  C12_no_panic_histories_nofloat:
                   without Float arguments the same for Tree/Script.v's own run_ops;  C12_panicfree_reachable: PanicFree and
                   RefNoFloat in every world run_ops reaches.
+   C12_histories_nonvacuous: a concrete history on the real tables that hands a Float to set_character_data of a SHORT-NAME
+                  satisfies wf_ops and, with the oracle answering "x1", renames the package to x1 (the UNMODELLED path of Ops.v).
    wf_ops l w   = for each call o of l, at the world w_k where it runs: op_wf w_k o and SizeOk w_k.
    op_wf, precisely (Tree/NoPanic.v), and why it does not restrict the public API:
                   - an element argument is an allocated node id (h < w_next w): an `Element` handle is an Arc that keeps its
@@ -73,7 +75,7 @@ From AV Require Import Base.Bytes Base.Outcome Hash.HashModel Hash.HashRealEnum 
 From AV Require Import Tree.Heap Tree.Ops Tree.Script Tree.Inv Tree.NoPanic.
 From AV Require Import Tree.NoPanicProofsBase Tree.NoPanicProofsDepth Tree.NoPanicProofsCopy2 Tree.NoPanicProofsMain Tree.NoPanicReal.
 From AV Require Import Hash.HashRealAttr Tree.Script2 Tree.SortProofsHeap Tree.SortProofsReadyV Tree.IndexProofsNodeInv Tree.NoPanicProofsMoveX Tree.NoPanicFloat
-  Tree.NoPanicProofsHist Tree.NoPanicProofsHistReal Tree.NoPanicProofsOp2.
+  Tree.NoPanicProofsHist Tree.NoPanicProofsHistReal Tree.NoPanicProofsOp2 Tree.SortProofsReal Tree.NoPanicProofsHistEx.
 Open Scope N_scope.
 
 Theorem C12_no_panic_partial :
@@ -231,3 +233,10 @@ Theorem C12_no_panic2_partial :
       run_op2F RT tab_element tab_attr tab_enum check_fn float_parse fmt LATEST name_index name_definition_ref
                attr_schema_location root_attrs o w <> Fuel.
 Proof. exact no_panic2_partial_real. Qed.
+
+(* [F] non-vacuity: wf_ops is satisfiable on the real tables by a history that takes the oracle path *)
+Theorem C12_histories_nonvacuous :
+  wf_ops RT tab_element tab_enum nv_check 1048576 [] ex_fmt ex_hist empty_world /\
+  exists w', run_opsF RT tab_element tab_enum nv_check 1048576 [] ex_fmt ex_hist empty_world = Val w' /\
+             option_map n_content (w_nodes w' 3) = Some [CData (DString [120; 49])].
+Proof. exact (conj ex_wf ex_runs). Qed.
